@@ -142,7 +142,7 @@ func (h ProtectedHeader) SetCWTClaims(claims CWTClaims) (CWTClaims, error) {
 
 // Algorithm gets the algorithm value from the algorithm header.
 func (h ProtectedHeader) Algorithm() (Algorithm, error) {
-	value, ok := h[HeaderLabelAlgorithm]
+	value, ok := lookupLabel(h, HeaderLabelAlgorithm)
 	if !ok {
 		return AlgorithmReserved, ErrAlgorithmNotFound
 	}
@@ -174,7 +174,7 @@ func (h ProtectedHeader) Algorithm() (Algorithm, error) {
 // Notice: The COSE Hash Envelope API is EXPERIMENTAL and may be changed or
 // removed in a later release.
 func (h ProtectedHeader) PayloadHashAlgorithm() (Algorithm, error) {
-	value, ok := h[HeaderLabelPayloadHashAlgorithm]
+	value, ok := lookupLabel(h, HeaderLabelPayloadHashAlgorithm)
 	if !ok {
 		return AlgorithmReserved, ErrAlgorithmNotFound
 	}
@@ -201,7 +201,7 @@ func (h ProtectedHeader) PayloadHashAlgorithm() (Algorithm, error) {
 //
 // Reference: https://datatracker.ietf.org/doc/html/rfc8152#section-3.1
 func (h ProtectedHeader) Critical() ([]any, error) {
-	value, ok := h[HeaderLabelCritical]
+	value, ok := lookupLabel(h, HeaderLabelCritical)
 	if !ok {
 		return nil, nil
 	}
@@ -227,7 +227,7 @@ func ensureCritical(value any, headers map[any]any) error {
 		if !canInt(label) && !canTstr(label) {
 			return fmt.Errorf("require int / tstr type, got '%T': %v", label, label)
 		}
-		if _, ok := headers[label]; !ok {
+		if !hasLabel(headers, label) {
 			return fmt.Errorf("missing critical header: %v", label)
 		}
 	}
@@ -522,8 +522,27 @@ func (h *Headers) ensureIV() error {
 
 // hasLabel returns true if h contains label.
 func hasLabel(h map[any]any, label any) bool {
-	_, ok := h[label]
+	_, ok := lookupLabel(h, label)
 	return ok
+}
+
+// lookupLabel returns the value stored under label, comparing integer labels
+// by value so that the result does not depend on the Go integer type (int,
+// int64, uint8, ...) used to spell the label in the map.
+func lookupLabel(h map[any]any, label any) (any, bool) {
+	if value, ok := h[label]; ok {
+		return value, true
+	}
+	want, ok := normalizeLabel(label)
+	if !ok {
+		return nil, false
+	}
+	for key, value := range h {
+		if got, ok := normalizeLabel(key); ok && got == want {
+			return value, true
+		}
+	}
+	return nil, false
 }
 
 // validateHeaderParameters validates all headers conform to the spec.
